@@ -16,7 +16,7 @@ OUTSIDE = ["string scanning (split/strip/splitlines) over symbolic text", "unkno
 
 TYPES = ["TAP", "MINE", "HOLD_HEAD"]
 OPS = {"<": operator.lt, "<=": operator.le, ">": operator.gt, ">=": operator.ge, "==": operator.eq, "!=": operator.ne}
-ROWS = [1, 2, 3, 4, 5, 8, 12, 16, 24, 48, 192]
+ROWS = [1, 2, 3, 4, 5, 7, 8, 9, 12, 16, 24, 48, 192]
 
 
 def _setup():
@@ -314,7 +314,7 @@ def obligations(tier):
     for o in OPS:
         obs.append(dict(name=f"order {o}", func="ob_order", args=(o,), budget_s=120, bounds="two notes: player, column unbounded ints >= 0, beat any real >= 0, keysound symbolic/None, 3x3 note types"))
     obs.append(dict(name="sorted/min/max", func="ob_sorted", args=(), budget_s=200, bounds="three notes at distinct symbolic positions"))
-    rows = [1, 2, 3, 4, 8, 12, 48] if tier == "quick" else ROWS
+    rows = [1, 2, 3, 4, 5, 7, 8, 12, 48] if tier == "quick" else ROWS
     for r in rows:
         for cols in ((4,) if tier == "quick" else (1, 4, 6, 16)):
             for v in ((0, 1) if tier == "quick" else (0, 1, 2, 3)):
